@@ -13,6 +13,17 @@ NoHidden == {{}}
 \* (every filter x every registered set x every page size without mutation is WalkOK, in every configuration)
 SomeHidden == {{}, {1, 2}, {3}, Ids \ {1}}
 
+\* class-map families for the configurations (ClassMaps <- ...)
+\* every id of the same class: every page boundary, whatever the page size, is an identifier of that class
+UniformMaps == [k \in Kinds |-> {[i \in Ids |-> c] : c \in Classes(k)}]
+\* one identifier of a class among short ones, at every position
+OneAmongShort == [k \in Kinds |-> {[i \in Ids |-> IF i = b THEN c ELSE ShortClass] : b \in Ids, c \in Classes(k) \ {ShortClass}}]
+QuickMaps == UniformMaps
+ThoroughMaps == [k \in Kinds |-> UniformMaps[k] \cup OneAmongShort[k]]
+\* the exhaustive runs under mutation: the behaviour of the model does not depend on kind and classes (they are
+\* outside MCView), one mixed assignment stands for all; the boundary configuration below enumerates them
+MixedMap == [k \in Kinds |-> {[i \in Ids |-> IF i % 2 = 1 THEN ShortClass ELSE CHOOSE c \in Classes(k) : c # ShortClass]}]
+
 MCView == <<registered, idxValid, idx, pageSize, tActive, tDone, tCursor, tHidden, tSeen, tStable, tInit, tMut, nMut, nTrav>>
 
 \* the exhaustive runs do not need the read-only probes in the state graph: their results are
@@ -44,15 +55,19 @@ WalkOK == ~tActive => \A H \in SUBSET Ids : Walk(SortKeys, pageSize, 0, Cardinal
 \* graph is a complete, self-contained history.  The ghost variables are hidden so that the graph
 \* stays small; enabledness of every action depends on view variables only.
 CoverView == <<registered, idxValid, pageSize, tActive, tDone, tCursor>>
+\* (the behaviour of the model does not depend on kind and classes, so this graph carries a placeholder: they are
+\* chosen when a history is replayed - feature kinds in turn, class maps of the boundary graph's family in turn or
+\* classes drawn from the seed)
 CoverInit == /\ registered = {} /\ idxValid = FALSE /\ idx = <<>> /\ pageSize = 0
-             /\ tActive = FALSE /\ tDone = FALSE /\ tCursor = 0 /\ tHidden = {} /\ tSeen = <<>>
+             /\ kind = "tools" /\ cls = [i \in Ids |-> ShortClass]
+             /\ tActive = FALSE /\ tDone = FALSE /\ tCursor = 0 /\ tEndCls = NoClass /\ tHidden = {} /\ tSeen = <<>>
              /\ tStable = {} /\ tInit = {} /\ tMut = FALSE /\ nMut = 0 /\ nTrav = 0
              /\ res = [kind |-> "none"]
 Setup(S, ps) ==
   /\ pageSize = 0
   /\ registered' = S /\ pageSize' = ps
   /\ res' = [kind |-> "ok"]
-  /\ UNCHANGED <<idxValid, idx, tActive, tDone, tCursor, tHidden, tSeen, tStable, tInit, tMut, nMut, nTrav>>
+  /\ UNCHANGED <<idxValid, idx, kind, cls, tActive, tDone, tCursor, tEndCls, tHidden, tSeen, tStable, tInit, tMut, nMut, nTrav>>
 Ready == pageSize # 0
 CAdd(i) == Ready /\ Add(i)
 CRemove(i) == Ready /\ Remove(i)
@@ -67,7 +82,36 @@ CoverNext ==
   \/ CFetchPage
   \/ \E H \in HiddenSets : CIterate(H)
 CoverSpec == CoverInit /\ [][CoverNext]_svars
-CoverInv == pageSize # 0 => (ExactlyOnceNoMutation /\ StableExactlyOnce /\ StrictlyIncreasing /\ IteratorEqualsManual /\ IndexFresh /\ HiddenNeverSeen)
+CoverInv == pageSize # 0 => (ExactlyOnceNoMutation /\ StableExactlyOnce /\ StrictlyIncreasing /\ IteratorEqualsManual /\ IndexFresh /\ HiddenNeverSeen /\ EndClassExplicit)
+
+\* Boundary configuration: the second graph handed to tools/graphwalk.py.  The first step chooses the feature kind,
+\* the page size and the class of every identifier (ClassMaps[kind]); all ids are registered.  Then traversals
+\* without a filter, the iterator between traversals, and - while a traversal stands at a cursor - removal of the
+\* very identifier the cursor was made from (a stale cursor of that class).  kind, cls and tEndCls are in the view:
+\* an edge cover of this graph puts every class at the end of a non-final page for every kind and page size
+\* (BoundaryCovers is checked by TLC; the check script also counts it in the log of the real run).
+BoundaryView == <<kind, cls, registered, idxValid, pageSize, tActive, tDone, tCursor, tEndCls>>
+BSetup(k, ps, m) ==
+  /\ pageSize = 0
+  /\ kind' = k /\ cls' = m /\ registered' = Ids /\ pageSize' = ps
+  /\ res' = [kind |-> "ok"]
+  /\ UNCHANGED <<idxValid, idx, tActive, tDone, tCursor, tEndCls, tHidden, tSeen, tStable, tInit, tMut, nMut, nTrav>>
+AtCursor(i) == tActive /\ ~tDone /\ tCursor = i
+\* (enabledness depends on view variables only: at most one removal per history, the iterator between traversals)
+BRemove(i) == AtCursor(i) /\ registered = Ids /\ CRemove(i)
+BIterate == (~tActive \/ tDone) /\ CIterate({})
+BoundaryNext ==
+  \/ \E k \in Kinds, ps \in PageSizes : \E m \in ClassMaps[k] : BSetup(k, ps, m)
+  \/ CStartTraversal({})
+  \/ CFetchPage
+  \/ BIterate
+  \/ \E i \in Ids : BRemove(i)
+BoundarySpec == CoverInit /\ [][BoundaryNext]_svars
+BoundaryInv == pageSize # 0 => (TypeOK /\ CoverInv /\ NoDuplicates /\ EndsWithEmptyCursor /\ PageShape)
+\* with every id registered, id i ends a non-final page of an unmutated traversal iff ps divides i and i is not the last
+BoundaryCovers == pageSize = 0 =>
+  \A k \in Kinds, ps \in PageSizes : \A c \in Classes(k) :
+     \E m \in ClassMaps[k] : \E i \in Ids : m[i] = c /\ i % ps = 0 /\ i < Cardinality(Ids)
 
 \* reachability witnesses (each must be VIOLATED, otherwise the model is vacuous)
 NeverStaleCursor == ~(tActive /\ ~tDone /\ tCursor # 0 /\ tCursor \notin registered)
